@@ -408,4 +408,10 @@ theorem refused_payload_outcomes (payload : J) (h : payload.intsOK = false) (r :
     · simp [h]
     · rename_i _ h2; exact h2
 
+-- non-vacuity: a payload the encoder refuses exists (an integer of 4301 digits), and one it does not
+example : (J.obj [([110], J.int (10 ^ 4300))]).intsOK = false := by decide +kernel
+example : (J.obj [([110], J.int (10 ^ 4300 - 1))]).intsOK = true := by decide +kernel
+example : withIntLimit (J.int (10 ^ 4300)) (.ok ()) = .error .arg ∧ withIntLimit (J.int 7) (.ok ()) = .ok () := by
+  constructor <;> decide +kernel
+
 end CCT.C13
